@@ -18,7 +18,8 @@ RULE = (
     "<= 6 (quick) / 8 (thorough) embedded in an expression, a declarator and a statement context. Oracle: a 10-line bracket "
     "matcher over the token stream says unbalanced => parse must raise ParseError (balanced strings carry no claim); injected "
     "text must always raise ParseError. Another exception type counts as 'not ParseError' and is reported (it is also a C06 "
-    "matter). Also (e) coverage-guided campaigns (atheris/libFuzzer, token sequences over a 150-entry vocabulary): an input containing "
+    "matter). Also: non-token text and single brackets at EVERY offset (outside the quoted file name) of every line directive of fixed "
+    "cpp-style programs and of generated programs laid out with linemarkers of 8 forms. (e) coverage-guided campaigns (atheris/libFuzzer, token sequences over a 150-entry vocabulary): an input containing "
     "a token no C program contains or brackets that do not nest must be rejected; the committed corpus of earlier campaigns is replayed. "
     "Non-trivial: mutants whose first imbalance or injection lies after >= 10 valid tokens; distinct by construction "
     "per program."
@@ -114,6 +115,85 @@ def mutate_program(strs, st, label, all_boundaries):
                 must_reject(m, "inject %r" % inj.strip(), (label, m), st)
                 if i >= 10:
                     st.nontrivial += 1
+
+
+DIRECTIVE_INJECT = ["@", "`", "\\", "/*", "//", "'", "(", ")", "[", "]", "{", "}", "$@", "#"]
+DIRECTIVE_BASES = [
+    '# 1 "/usr/include/stdio.h" 1 3 4\nint a;\n# 20 "f.c" 2\nint b;\n',
+    'int a;\n#line 7 "g.h"\nint b = (1);\n# 9 "g.h" 3\nint c[2];\n',
+    'void f(void) {\n  # 3 "h.h" 1\n  int x;\n#line 12\n  x = 1;\n# 5 "f.c" 2 3 4\n}\n',
+    '#   44   "a b.c"   1   2\nstruct S { int m;\n# 2\n int n; };\n',
+]
+
+
+def directive_lines(text):
+    """(start, end, quote_spans) of every line directive line (not #pragma)"""
+    out = []
+    pos = 0
+    for line in text.split("\n"):
+        s = line.lstrip(" \t")
+        if s.startswith("#") and not s[1:].lstrip(" \t").startswith("pragma"):
+            spans = []
+            i = line.find('"')
+            if i >= 0:
+                j = line.find('"', i + 1)
+                if j > i:
+                    spans.append((pos + i, pos + j))
+            out.append((pos, pos + len(line), spans))
+        pos += len(line) + 1
+    return out
+
+
+def inject_in_directives(text, st, label, case_of):
+    """non-token text or a bracket at EVERY offset of every line directive
+    (outside the quoted file name): the result must be rejected"""
+    out = parse_outcome(text, "f.c", ("f.c",))
+    if out[0] != "ast":
+        st.classes["base_not_accepted"] += 1
+        return
+    st.classes["directive_base_programs"] += 1
+    for a, b, spans in directive_lines(text):
+        for off in range(a, b + 1):
+            if any(i < off <= j for i, j in spans):
+                continue
+            for inj in DIRECTIVE_INJECT:
+                if inj == "#" and off == a:
+                    continue
+                m = text[:off] + inj + text[off:]
+                o2 = parse_outcome(m, "f.c", ("f.c",))
+                st.evaluations += 1
+                st.nontrivial += 1
+                if o2[0] == "ast":
+                    fail("accepted", case_of(m), m, "%r injected into a line directive (offset %d of the line) is accepted" % (inj, off - a), "accepted:directive")
+
+
+def directive_shard(arg):
+    from ..layout import lay_out
+
+    seed, n = arg
+    st = Stats()
+    for t in DIRECTIVE_BASES[seed % 2 :: 2]:
+        try:
+            inject_in_directives(t, st, "fixed", lambda m: ("text", m))
+        except CheckFailure as f:
+            st.failures.append(f.failure)
+
+    class T:
+        def __init__(self, s, line=False):
+            self.s = s
+            self.line = line
+
+    def body(c):
+        g = gen.G(c, quarantine=QUARANTINE, max_nodes=50)
+        tu = M.freshen(gen.gen_unit(g, 1))
+        r = M.Renderer("min")
+        r.unit(tu)
+        toks = [T(x) for x in gen.PRELUDE.split()] + [T(t.s, t.line) for t in r.toks]
+        laid = lay_out(toks, c, style="random", marker_p=0.12, collide_p=0)
+        inject_in_directives(laid.text, st, "generated", lambda m: ("text", m))
+
+    hyp_search(body, seed, n, st)
+    return st
 
 
 def random_shard(arg):
@@ -270,6 +350,7 @@ def run(ctx):
         corners = corners[ctx.seed % 4 :: 4]
     progs = [(n, t, allb, maxtok) for n, t in corpus(big=False)] + corners
     ctx.map(corpus_shard, progs)
+    ctx.map(directive_shard, [(s, ctx.pick(6, 150)) for s in ctx.shard_seeds(16, 11)])
     import json
     import os
 
@@ -289,5 +370,10 @@ def replay(subcheck, case):
     st = Stats()
     if case[0] == "fuzz":
         fuzz_must_reject(bytes.fromhex(case[1]), st, case)
+        return
+    if case[0] == "text":
+        out = parse_outcome(case[1], "f.c", ("f.c",))
+        if out[0] == "ast":
+            fail("accepted", case, case[1], "malformed text accepted", "accepted:directive")
         return
     must_reject(list(case[1]), "replay", case, st)
